@@ -195,7 +195,16 @@ impl Sched {
             _ => Sched {
                 kind: "stall".into(),
                 seed,
-                a: rng.range(4, 120),
+                // window of a stall in scheduling steps: short ones mostly; one time in
+                // four log-uniform up to 4 x the estimated length of the run -- a worker
+                // that sleeps through (nearly) all the work the others do
+                a: if rng.chance(3, 4) {
+                    rng.range(4, 120)
+                } else {
+                    let hi = ((est_steps.max(16) * 4) as f64).min(4.0e9);
+                    let u = (rng.next_u64() >> 11) as f64 / (1u64 << 53) as f64;
+                    (hi.powf(u) as u64).clamp(4, u32::MAX as u64 / 4)
+                },
                 b: 0,
                 decisions_rle: vec![],
             },
